@@ -256,13 +256,15 @@ class Interp:
                 return Arr(args), {}
             if cn == "ArrayGetitemCompiler":
                 a, i = args
-                i = _realize(i)
+                if 0 <= i < len(a.v):
+                    i = _realize(i)
                 if not (0 <= i < len(a.v)):
                     raise OutsideIndex()
                 return a.v[i], {0: a}
             if cn == "ArraySetitemCompiler":
                 a, i, v = args
-                i = _realize(i)
+                if 0 <= i < len(a.v):
+                    i = _realize(i)
                 if not (0 <= i < len(a.v)):
                     raise OutsideIndex()
                 return None, {0: Arr(a.v[:i] + (v,) + a.v[i + 1:])}
